@@ -925,10 +925,11 @@ impl<'a> CompilerState<'a> {
                 let mut s = self.compile_quoted_string(px.next().unwrap())?;
                 let size = if let Some(x) = px.next() {
                     let n = self.parse_calc(x.into_inner())?;
-                    if n < 0 {
-                        return Err(
-                            self.syntax_error("The size of inline assembly can't be negative", pos)
-                        );
+                    if !(0..=0x10000).contains(&n) {
+                        return Err(self.syntax_error(
+                            "The size of inline assembly must be between 0 and 65536",
+                            pos,
+                        ));
                     }
                     Some(n as u32)
                 } else {
